@@ -38,6 +38,15 @@ func genTPlan(rt *rapid.T, pairs [][2]int, maxBatches int, withFailing bool) tPl
 			}
 			tb.Tasks = append(tb.Tasks, task)
 		}
+		if !sameRange && rapid.IntRange(0, 7).Draw(rt, "refusedProposal") == 0 {
+			// a proposal every node has to refuse as a whole and without any effect: it names no message at all (an empty
+			// range of the baked list) or a range that runs past the list's end; the batches after it are signed as usual
+			if rapid.Bool().Draw(rt, "pastEnd") {
+				tb.Tasks = []sTask{{ID: fmt.Sprintf("past-end-b%d", b), Start: 18630, End: 18640}}
+			} else {
+				tb.Tasks = []sTask{{ID: fmt.Sprintf("empty-range-b%d", b), Start: 5, End: 5}}
+			}
+		}
 		// up to n-t participants stay silent or fail, so that t correct answers remain possible; sometimes more fail
 		perm := rapid.Permutation(seq(p.N)).Draw(rt, "perm")
 		ns := rapid.IntRange(0, p.N-p.T).Draw(rt, "nsilent")
@@ -85,6 +94,9 @@ func c07Run(t *testing.T, st *vstat.Stats, p tPlan) *viol {
 			}
 			if len(tk.ID) > 255 {
 				st.Class("batch-with-a-message-id-longer-than-255-bytes")
+			}
+			if strings.HasPrefix(tk.ID, "past-end-") || strings.HasPrefix(tk.ID, "empty-range-") {
+				st.Class("proposal-that-names-no-valid-message-refused")
 			}
 		}
 	}
